@@ -24,6 +24,19 @@ func script(logFile string, body string) string {
 	return "#!/bin/sh\necho \"$0 $*\" >> " + logFile + "\n" + body + "\n"
 }
 
+// failBody is how a failing formatter run ends: a plain non-zero exit, death by
+// signal, or (start) a script whose interpreter does not exist, so that the
+// file is executable but cannot be started.
+func failBody(mode string) string {
+	switch mode {
+	case "signal":
+		return "kill -9 $$"
+	}
+	return "exit 2"
+}
+
+var failMode = "exit"
+
 func writeWorld(dir, logFile string, w free.World) {
 	os.RemoveAll(dir)
 	os.MkdirAll(dir, 0o755)
@@ -52,19 +65,34 @@ func writeWorld(dir, logFile string, w free.World) {
 		var body string
 		switch t {
 		case "goimports":
-			body = fmt.Sprintf("exit %d", b2i(!runOK)*2) // goimports is only ever run, never probed directly
+			body = "exit 0" // goimports is only ever run, never probed directly
+			if !runOK {
+				body = failBody(failMode)
+			}
 			if st == free.ProbeFails {
 				continue // probe fails for goimports == `which` does not find it
 			}
+			if !runOK && failMode == "start" {
+				// executable, found by `which`, but its interpreter does not exist
+				os.WriteFile(filepath.Join(dir, name), []byte("#!/nonexistent/interpreter\n"), 0o755)
+				continue
+			}
 		case "dart":
-			body = fmt.Sprintf("case \"$2\" in --help) exit %d;; esac\nexit %d", b2i(!probeOK), b2i(!runOK)*2)
+			body = fmt.Sprintf("case \"$2\" in --help) exit %d;; esac\n%s", b2i(!probeOK), runEnd(runOK))
 		case "prettier":
-			body = fmt.Sprintf("case \"$2\" in -v) exit %d;; esac\nexit %d", b2i(!probeOK), b2i(!runOK)*2)
+			body = fmt.Sprintf("case \"$2\" in -v) exit %d;; esac\n%s", b2i(!probeOK), runEnd(runOK))
 		case "pg_format":
-			body = fmt.Sprintf("case \"$1\" in -v) exit %d;; esac\nexit %d", b2i(!probeOK), b2i(!runOK)*2)
+			body = fmt.Sprintf("case \"$1\" in -v) exit %d;; esac\n%s", b2i(!probeOK), runEnd(runOK))
 		}
 		put(name, body)
 	}
+}
+
+func runEnd(ok bool) string {
+	if ok {
+		return "exit 0"
+	}
+	return failBody(failMode)
 }
 
 func b2i(b bool) int {
@@ -90,6 +118,7 @@ func main() {
 	for i := 0; i < runs && len(rep.Violations) < 3; i++ {
 		r := kernel.NewRand(kernel.Mix(seed, "C20-tier3", i))
 		w := free.WorldOf(r.Intn(512))
+		failMode = kernel.Pick(r, []string{"exit", "exit", "signal", "start"})
 		writeWorld(bin, logFile, w)
 		os.Remove(logFile)
 		os.Setenv("PATH", bin)
